@@ -16,7 +16,17 @@ import (
 // through the alias); the reference semantics of the ORIGINAL program decide the output of the split program.
 var c09SplitCfg = gen.Cfg{MaxStmts: 22, MaxDepth: 3, ExprDepth: 3, Funcs: true, MaxFuncs: 5, Slices: true, StrOps: true, LoopBudget: 10, DumpGlobal: true, ErrSpell: true, BigSlices: true, CmdNeutral: true, BareExpr: true}
 
-func c09Split(t *rapid.T, r *rep.R) bool {
+type c09SplitProg struct {
+	prog        *ts.Program
+	ref         ts.Result // reference run of the ORIGINAL single-file program
+	two         bool
+	nMoved      int
+	movedPublic []string // public names of the moved functions
+	reason      string   // why nothing was built ("" = built)
+}
+
+// c09BuildSplit generates a single-file program and splits it (see c09Split). ok=false: nothing to split / invalid base.
+func c09BuildSplit(t *rapid.T) (c09SplitProg, bool) {
 	stmts, _ := gen.Stmts(t, c09SplitCfg)
 	single := ts.Single(stmts)
 	ref, err := refRun(single, 3000, nil, nil)
@@ -25,8 +35,7 @@ func c09Split(t *rapid.T, r *rep.R) bool {
 		if iv, ok := err.(ts.Invalid); ok {
 			reason = iv.Reason
 		}
-		r.Discard("split:" + reason)
-		t.Skip(reason)
+		return c09SplitProg{reason: reason}, false
 	}
 	// which functions can move: no use of a global defined before them, only calls of functions that move too
 	globals := map[string]bool{}
@@ -61,7 +70,7 @@ func c09Split(t *rapid.T, r *rep.R) bool {
 		}
 	}
 	if len(moved) == 0 {
-		return false // nothing to split: the caller goes on with the import-graph family
+		return c09SplitProg{}, false // nothing to split
 	}
 	// two libraries when there is enough to split: the second one holds a call-closed prefix and is imported by the first
 	inSecond := map[string]bool{}
@@ -117,6 +126,40 @@ func c09Split(t *rapid.T, r *rep.R) bool {
 		mainF.Imports = append(mainF.Imports, ts.Import{Alias: "lc", Path: "sub/lc.tsh"})
 		mainF.GroupImports = gen.Uniform(0, 1).Draw(t, "group") == 1
 	}
+	pubs := []string{}
+	for _, n := range order {
+		pubs = append(pubs, pub(n))
+	}
+	if ref.Status == 0 {
+		// every library also keeps a private global that only its own public function touches; the importer calls it last
+		for alias, f := range map[string]*ts.File{"lb": lb, "lc": lc} {
+			if alias == "lc" && !two {
+				continue
+			}
+			cnt := ts.VarRef{Name: "lcount", Ty: ts.TInt}
+			f.Stmts = append([]ts.Stmt{ts.VarDecl{Names: []string{"lcount"}, Ty: ts.TInt, Tys: []ts.Type{ts.TInt}, Vals: []ts.Expr{ts.IntLit{V: 7}}, Form: ts.DeclShort}}, f.Stmts...)
+			f.Stmts = append(f.Stmts, ts.FuncDef{Name: "Lbump", Rets: []ts.Type{ts.TInt}, Body: []ts.Stmt{
+				ts.Assign{Names: []string{"lcount"}, Vals: []ts.Expr{ts.Bin{Op: "+", Ty: ts.TInt, L: cnt, R: ts.IntLit{V: 1}}}},
+				ts.Return{Vals: []ts.Expr{cnt}}}})
+			call := ts.Call{Alias: alias, Name: "Lbump", Rets: []ts.Type{ts.TInt}}
+			mainF.Stmts = append(mainF.Stmts, ts.Print{Args: []ts.Expr{ts.StrLit{V: alias}, call}}, ts.Print{Args: []ts.Expr{ts.StrLit{V: alias}, call}})
+			ref.Stdout += alias + " 8\n" + alias + " 9\n"
+			pubs = append(pubs, "Lbump")
+		}
+	}
+	return c09SplitProg{prog: prog, ref: ref, two: two, nMoved: len(moved), movedPublic: pubs}, true
+}
+
+func c09Split(t *rapid.T, r *rep.R) bool {
+	sp, ok := c09BuildSplit(t)
+	if !ok {
+		if sp.reason != "" {
+			r.Discard("split:" + sp.reason)
+			t.Skip(sp.reason)
+		}
+		return false // nothing to split: the caller goes on with the import-graph family
+	}
+	prog, ref, two := sp.prog, sp.ref, sp.two
 	srcs := ts.Sources(prog)
 	// the module semantics of the reference interpreter must agree with the single-file run (self-check of the harness)
 	ref2, err2 := refRun(prog, 3000, nil, nil)
@@ -129,7 +172,7 @@ func c09Split(t *rapid.T, r *rep.R) bool {
 	if two {
 		r.Class("split:two-libraries")
 	}
-	r.Class(fmt.Sprintf("split:moved-%d", len(moved)))
+	r.Class(fmt.Sprintf("split:moved-%d", sp.nMoved))
 	all := mainSource(srcs, "main.tsh")
 	r.NonTrivial(all, map[string]any{"files": srcs, "expect_stdout": ref.Stdout})
 	c := execCase{Kind: "bash-run", Property: "C09", Files: srcs, Main: "main.tsh", ExpectStdout: ref.Stdout, ExpectStatus: ref.Status}
